@@ -131,7 +131,9 @@ def flatten_items(pg):
     items = []
     for st in pg.steps:
         kd = st.kind
-        if kd == "sort":
+        if st.info.get("flat"):
+            items.append(st.info["flat"])          # hand-built step: its shape is given
+        elif kd == "sort":
             items.append("PSort %s" % k(st.info["keys"]))
         elif kd == "take":
             items.append("PTake")
@@ -142,14 +144,16 @@ def flatten_items(pg):
         elif kd == "group_win":
             items.append("PGroup true [PSort %s; PWin]" % k(st.info["keys"]))
         elif kd == "group_agg":
-            items.append("PGroup true [POther]")
+            items.append("PGroup true [PAgg]")
         elif kd == "distinct":
             items.append("PGroup true [PTake]")
         elif kd == "join" and st.info.get("rsub"):
             items.append("PSub [PSort %s]" % k(st.info["rsub"]))
         elif kd in ("join", "append", "knownjoin"):
             items.append("PSub []")
-        elif kd in ("derive", "filter", "select", "aggregate", "exclude"):
+        elif kd == "aggregate":
+            items.append("PAgg")
+        elif kd in ("derive", "filter", "select", "exclude"):
             items.append("POther")
         else:
             return None
@@ -178,25 +182,99 @@ def rq_tokens(rq):
     return out
 
 
-def flatten_stream(ck, programs):
-    """Tie B for Model/Flatten.v: the sorts the resolver hands to takes / windowed computes, and which Sort
-    transforms survive, in the implementation's RQ vs the model run on the abstract program"""
-    cand = [(pg, flatten_items(pg)) for pg in programs if not pg.meta.get("let_at")]
-    cand = [(pg, it) for pg, it in cand if it is not None]
-    ans = harness("rq", [{"src": pg.prql()} for pg, _ in cand])
+class FlatShapes:
+    """random nested pipelines for the Flattener tie: sorts, takes, windowed computes, aggregates (outside of groups, and
+    inside group bodies -- last or not), groups (empty / non-empty key, nested), window bodies, relational arguments.
+    Only the resolver runs on them (RQ), nothing is executed: every aggregate re-defines the columns it consumes, so
+    any transform can follow any other."""
+    COLS = ["id", "a", "b", "c", "g"]
+
+    def __init__(self, rng):
+        self.r, self.n = rng, 0
+
+    def fresh(self):
+        self.n += 1
+        return "y%d" % self.n
+
+    def keys(self, avail):
+        r = self.r
+        return [(r.random() < 0.5, c) for c in r.sample(avail, min(len(avail), r.choice([1, 1, 2])))]
+
+    def body(self, depth, gkeys, in_window, n=None):
+        """-> (coq items, prql steps); gkeys = group keys of the enclosing groups: inside the body they are not
+        columns of the chunk (not aggregated again, not referenced)"""
+        r = self.r
+        avail = [c for c in self.COLS if c not in gkeys]
+        items, steps = [], []
+        want = n or r.randint(1, 4 if depth else 6)
+        tries = 0
+        while len(items) < want and tries < 40:
+            tries += 1
+            k = r.random()
+            if k < 0.22:
+                ks = self.keys(avail)
+                items.append("PSort [%s]" % "; ".join("true" if d else "false" for d, _ in ks))
+                steps.append("sort {%s}" % ", ".join(("-" if d else "") + c for d, c in ks))
+            elif k < 0.38:
+                items.append("PTake")
+                steps.append("take %d" % r.randint(1, 3))
+            elif k < 0.52:
+                items.append("PWin")
+                steps.append("derive {%s = %s %s}" % (self.fresh(), r.choice(["lag 1", "lead 1", "sum", "min"]), r.choice(avail[1:])))
+            elif k < 0.64:
+                items.append("POther")
+                steps.append(r.choice(["filter id != 99", "derive {%s = id + 1}" % self.fresh(), "select {%s}" % ", ".join(avail)]))
+            elif k < 0.74 and not in_window:
+                items.append("PAgg")
+                steps.append("aggregate {%s}" % ", ".join("%s = %s %s" % (c, r.choice(["min", "max"]), c) for c in avail))
+            elif k < 0.88 and depth < 2 and not in_window:
+                cand = [c for c in (["a", "g"] if depth == 0 else ["b", "c"]) if c not in gkeys]
+                by = [] if r.random() < 0.2 else [r.choice(cand)]
+                bi, bs = self.body(depth + 1, gkeys + by, False)
+                items.append("PGroup %s [%s]" % ("true" if by else "false", "; ".join(bi)))
+                steps.append("group {%s} (%s)" % (", ".join(by), " | ".join(bs)))
+            elif k < 0.95 and depth < 2:
+                bi, bs = self.body(depth + 1, gkeys, True, n=r.randint(1, 2))
+                items.append("PWindow [%s]" % "; ".join(bi))
+                steps.append("window %s (%s)" % (r.choice(["rolling:2", "rows:-1..1", "expanding:true"]), " | ".join(bs)))
+            elif depth == 0:
+                items += ["POther", "PSub []"]
+                steps += ["select {id, a, b, c, g}", "append (from t | select {id, a, b, c, g} | sort {-a, id} | take 4)"]
+        return items, steps
+
+    def case(self):
+        items, steps = self.body(0, [], False)
+        return "from t | select {id, a, b, c, g} | " + " | ".join(steps), "[POther; %s]" % "; ".join(items)
+
+
+def flatten_stream(ck, programs, shapes=()):
+    """Tie B for Model/Flatten.v: the sorts the resolver hands to takes / windowed computes, their partitions, and which
+    Sort transforms survive, in the implementation's RQ vs the model run on the abstract program.
+    programs: generated Programs; shapes: (prql text, coq item list) pairs of the FlatShapes family"""
+    cand = [(pg.prql(), flatten_items(pg)) for pg in programs if not pg.meta.get("let_at")]
+    cand = [(src, it) for src, it in cand if it is not None] + list(shapes)
+    ans = harness("rq", [{"src": src} for src, _ in cand])
     exprs, meta = [], []
-    for (pg, it), a in zip(cand, ans):
+    for (src, it), a in zip(cand, ans):
         if "ok" not in a:
+            ck.stat("flatten", "not-resolved")
             continue
         toks = rq_tokens(a["ok"])
         if toks is None:
+            ck.stat("flatten", "no-main-pipeline")
             continue
-        exprs.append("(fst (flat (list bool) [] 200 false false [] %s))" % it)
-        meta.append((pg, toks))
+        exprs.append("(fst (flat (list bool) [] 200 false None [] %s), (fst (carried_spec (list bool) [] 200 None [] %s), tame (list bool) 200 false %s))" % (it, it, it))
+        meta.append((src, it, toks))
     header = "From Coq Require Import List Bool.\nFrom PV Require Import Model.Flatten.\nImport ListNotations.\n"
     vals = coq_eval(header, exprs) if exprs else []
-    for (pg, toks), v in zip(meta, vals):
-        ck.count("flatten", pg.prql())
+    for (src, it, toks), (v, (spec, tame)) in zip(meta, vals):
+        ck.count("flatten", src)
+        ck.stat("flatten", "tame" if tame else "not-tame")
+        for tag in ("PAgg", "PGroup", "PWindow", "PSub"):
+            if tag in it:
+                ck.stat("flatten", "has:" + tag)
+        if "PGroup" in it and re.search(r"PGroup (?:true|false) \[[^\]]*PGroup", it):
+            ck.stat("flatten", "has:nested-group")
         got = []
         for o in v:
             if o[0] == "OSort":
@@ -204,8 +282,17 @@ def flatten_stream(ck, programs):
             else:
                 got.append((o[0], o[1], list(o[2])))
         if got != toks:
-            ck.disagreement("flattener: the sorts carried in the implementation's RQ differ from Model/Flatten.v on %s" % pg.prql().replace("\n", " | ")[:220],
-                            {"prql": pg.prql(), "implementation_rq": toks, "model": got}, lambda c: None)
+            ck.disagreement("flattener: the sorts carried in the implementation's RQ differ from Model/Flatten.v on %s" % src.replace("\n", " | ")[:220],
+                            {"prql": src, "items": it, "implementation_rq": toks, "model": got}, lambda c: None)
+        # implementation vs SPECIFICATION (carried_spec: the order in effect at every take / windowed compute).  Inside the
+        # class `tame` this follows from the comparison above (c03_flattener_carries_order_in_effect_partial); outside of it
+        # (an aggregate inside a group body that is not the last transform of the body) it is finding F44
+        carried = [(t[1], t[2]) for t in toks if t[0] != "OSort"]
+        want = [(pb, list(k)) for pb, k in spec]
+        if carried != want:
+            ck.disagreement("flattener: a take / window function is handed a sort that is not the order in effect at its position: %s" % src.replace("\n", " | ")[:220],
+                            {"prql": src, "items": it, "implementation_rq": toks, "specification": want},
+                            lambda c, t=tame: None if t else "F44-grouped-aggregate-keeps-sort")
 
 
 def main_order_by(sql):
